@@ -1,8 +1,31 @@
+(* C16 - terminal output is delivered in order, exactly once; frames are never torn; the byte
+   queue's length is the number of readable bytes.  Statements only. *)
 From Coq Require Import List NArith Arith.
 From SNT Require Import Base.Outcome IO.IOQueue IO.IOQueueProofs.
 Import ListNotations.
 
+Section Statements.
+  Context {A : Type}.
+
+  (* all interleavings of write / flush / read / consume / consume_with / drop / read_to_end,
+     unbounded, on a fresh queue *)
+  Theorem C16_queue_history : forall ops : list (op A),
+    let B := length (written ops) in
+    (N.of_nat B <= usize_max)%N ->
+    (exec qempty ops [] [] = Panic 2 /\ Exists (fun o => ~ amt_fits B o) ops)
+    \/ exists q R X, exec qempty ops [] [] = Ok (q, R, X) /\ Inv q
+          /\ erase (written ops) (R ++ pending q) X
+          /\ total_len (chunks q) <= B.
+  Proof. exact queue_history. Qed.
+
+  Theorem C16_queue_len_readable : forall (q : queue A) n, reachable q -> 0 < n ->
+    len q = length (pending q)
+    /\ exists q', read_all (S (length (pending q))) q n [] = Ok (q', pending q)
+                  /\ is_empty q' = true /\ len q' = 0.
+  Proof. exact len_is_readable. Qed.
+End Statements.
+
 Theorem C16_length_defect_as_found :
-  let q := write (flush (write (flush (write (@qempty N) [1;2;3]%N)) [4;5;6;7]%N)) [] in
+  let q := flush (write (flush (write (@qempty N) [1;2;3]%N)) [4;5;6;7]%N) in
   len (clear_but_last_orig q) = 7 /\ length (pending (clear_but_last_orig q)) = 3.
 Proof. exact clear_but_last_orig_refuted. Qed.
